@@ -183,6 +183,10 @@ def grid(ctx):
                         for (m, C, bn, am) in combos:
                             yield dict(base, m=m, C=C, bn=bn), am, first
                             first = False
+    # large feature counts (hidden degrees beyond the range of small integer dtypes); masks and path counts for one block
+    for copy in ('transforms', 'nde'):
+        for (F, H) in ((300, 260), (257, 300)):
+            yield dict(copy=copy, F=F, H=H, blocks=1, residual=False, random=False, seed=0, m=1, C=0, bn=False), 1, True
     # the mixture-density subclass (multiplier 3 * components)
     for F in (1, 2, 3, 5):
         for H in (1, 2, 4, 7):
